@@ -191,6 +191,9 @@ type World struct {
 	hasOnef          bool
 	pointArmed       bool
 	holdArmed        bool
+	killArmed        bool
+	cancelArmed      bool
+	curCancel        context.CancelFunc
 	suspended        bool
 	wtSmall          bool
 	injectComposite  bool    // INJX: after the one-frame commit also end the long reader and run an application PASSIVE checkpoint
@@ -788,6 +791,8 @@ var ctxb = context.Background()
 func (w *World) lsOp(rc *Recorder, op string) error {
 	ctx, cancel := context.WithTimeout(ctxb, 60*time.Second)
 	defer cancel()
+	w.curCancel = cancel
+	defer func() { w.curCancel = nil }()
 	w.injRef = nil
 	if w.scriptInject > 0 {
 		w.injectIn = w.scriptInject
@@ -1175,6 +1180,41 @@ var ckptWindowScripts = func() (l [][2]string) {
 		l = append(l, [2]string{"ckpt-post-copy-window:" + mode,
 			fmt.Sprintf("OPEN S W W SW LR+ INJX=5 INJP=pt.ckpt.postcopy CK-%s SW", mode)})
 	}
+	// F21 (Db/MachineFaults.v error_exit_after_release_refuted; fixed in /repo a1345df): FULL / RESTART over a
+	// fully backfilled WAL read at mark 0; a one-frame commit restarts the WAL between the pre-checkpoint
+	// copy and the PRAGMA, the PRAGMA backfills it, the sequence bump fails busy (the application holds the
+	// write lock), the call returns an error; the application's commit restarts the WAL once more; the next
+	// sync must not continue from the new header
+	for _, mode := range []string{"FULL", "RESTART"} {
+		for _, k := range []int{3, 4} {
+			l = append(l, [2]string{"ckpt-error-exit-restart-window:" + mode,
+				fmt.Sprintf("OPEN S W SW REOPEN W W ACK-PASSIVE OPEN S SW INJ1=%d INJW=pt.ckpt.bump CK-%s WT- S SW W SW", k, mode)})
+		}
+	}
+	// F20 (Db/MachineProofs.v kill_after_lost_post_copy_refuted; fixed in /repo 20b75a5): the F16 interleaving,
+	// then the process dies right after the post-checkpoint copy wrote its level-0 file; the next process
+	// must not continue incrementally from that file
+	for _, mode := range []string{"FULL", "RESTART"} {
+		l = append(l, [2]string{"ckpt-kill-after-post-copy:" + mode,
+			fmt.Sprintf("OPEN S W W SW LR+ INJX=5 INJP=pt.ckpt.postcopy KILLP=pt.ckpt.postcopied CK-%s OPEN S SW W SW", mode)})
+	}
+	// error exits at arbitrary points of a checkpoint call: the call's context is cancelled at a trace point
+	// (before the PRAGMA, before the post-checkpoint copy, before the bump), with a commit injected earlier in
+	// the call, over a WAL that is / is not fully backfilled when the session starts; and process death at
+	// the same points
+	for _, mode := range []string{"PASSIVE", "FULL", "RESTART", "TRUNCATE"} {
+		for _, pt := range []string{"ckpt.run", "pt.ckpt.postcopy", "pt.ckpt.bump"} {
+			if pt == "pt.ckpt.postcopy" && (mode == "PASSIVE" || mode == "TRUNCATE") {
+				continue
+			}
+			l = append(l, [2]string{"ckpt-cancelled:" + mode,
+				fmt.Sprintf("OPEN S W W SW INJ=4 CANCELP=%s CK-%s W S SW W SW", pt, mode)})
+			l = append(l, [2]string{"ckpt-cancelled-mark0:" + mode,
+				fmt.Sprintf("OPEN S W SW REOPEN W W ACK-PASSIVE OPEN S SW INJ1=3 CANCELP=%s CK-%s W S SW W SW", pt, mode)})
+			l = append(l, [2]string{"ckpt-killed:" + mode,
+				fmt.Sprintf("OPEN S W W SW INJ=4 KILLP=%s CK-%s W OPEN S SW W SW", pt, mode)})
+		}
+	}
 	return l
 }()
 
@@ -1212,6 +1252,25 @@ var snapAfterReopenScripts = []string{
 	"OPEN S W SW REOPEN W OPEN SNAP ORACLE S SW ORACLE",
 	"OPEN S W SW W REOPEN OPEN W W SNAP ORACLE SW SNAP ORACLE",
 	"OPEN S W SW REOPEN OPEN S W W SNAP CMP ORACLE W SW ORACLE",
+}
+
+// killSentinel is the panic value of a simulated process death (KILLP=<trace point>)
+type killSentinel struct{ pt string }
+
+// stepOrDie runs one step; a simulated process death inside it unwinds the litestream call (its
+// deferred unlocks run, but nothing of the object is used again) and is reported by name
+func (w *World) stepOrDie(rc *Recorder, op string) (killed string) {
+	defer func() {
+		if r := recover(); r != nil {
+			k, ok := r.(killSentinel)
+			if !ok {
+				panic(r)
+			}
+			killed = k.pt
+		}
+	}()
+	w.step(rc, op)
+	return ""
 }
 
 func runScriptAs(rc *Recorder, dir string, rng *rand.Rand, script, cfgs, scenario string) error {
@@ -1260,6 +1319,8 @@ func runScriptAs(rc *Recorder, dir string, rng *rand.Rand, script, cfgs, scenari
 	nextInject := 0
 	nextPoint := false
 	nextHold := false
+	nextKill := false
+	nextCancel := false
 	defer func() { litestream.VerifTracePoint = nil }()
 	for _, op := range toks {
 		switch {
@@ -1337,6 +1398,35 @@ func runScriptAs(rc *Recorder, dir string, rng *rand.Rand, script, cfgs, scenari
 			}
 			nextPoint = true
 			continue
+		case strings.HasPrefix(op, "CANCELP="): // the context of the NEXT litestream op is cancelled at a verifTrace point: every later step of that call that looks at its context fails and the call returns an error from wherever it stands (an error exit at an arbitrary point)
+			cpt := strings.TrimPrefix(op, "CANCELP=")
+			prevHook := litestream.VerifTracePoint
+			litestream.VerifTracePoint = func(o any, ev string) {
+				if prevHook != nil {
+					prevHook(o, ev)
+				}
+				if ev == cpt && w.cancelArmed && w.curCancel != nil {
+					w.cancelArmed = false
+					w.curCancel()
+					w.trace = append(w.trace, "CANCEL@"+ev)
+				}
+			}
+			nextCancel = true
+			continue
+		case strings.HasPrefix(op, "KILLP="): // the process dies at a verifTrace point of the NEXT litestream op: the call never returns, every lock and handle it held is gone, nothing else is written; the next OPEN is a new process
+			kpt := strings.TrimPrefix(op, "KILLP=")
+			prevHook := litestream.VerifTracePoint
+			litestream.VerifTracePoint = func(o any, ev string) {
+				if prevHook != nil {
+					prevHook(o, ev)
+				}
+				if ev == kpt && w.killArmed {
+					w.killArmed = false
+					panic(killSentinel{kpt})
+				}
+			}
+			nextKill = true
+			continue
 		case strings.HasPrefix(op, "INJX="): // at the k-th log record: one-frame commit, end the application's long reader, application PASSIVE checkpoint
 			fmt.Sscanf(op, "INJX=%d", &nextInject)
 			w.injectOneFrame, w.injectComposite = true, true
@@ -1368,10 +1458,24 @@ func runScriptAs(rc *Recorder, dir string, rng *rand.Rand, script, cfgs, scenari
 		if w.holdArmed {
 			nextHold = false
 		}
-		w.step(rc, op)
-		w.pointArmed, w.holdArmed = false, false
+		w.killArmed = nextKill && !isAppOp(op)
+		if w.killArmed {
+			nextKill = false
+		}
+		w.cancelArmed = nextCancel && !isAppOp(op)
+		if w.cancelArmed {
+			nextCancel = false
+		}
+		if killed := w.stepOrDie(rc, op); killed != "" {
+			w.trace = append(w.trace, "KILLED@"+killed)
+			w.ldb.VerifAbandon()
+			w.ldb = nil
+			litestream.VerifTracePoint = nil
+		}
+		w.pointArmed, w.holdArmed, w.killArmed, w.cancelArmed = false, false, false, false
 	}
 	if w.ldb == nil {
+		lastTrace = w.cfg.String() + " | " + strings.Join(w.trace, " ")
 		return nil
 	}
 	w.trace = append(w.trace, "CLOSE")
